@@ -5,6 +5,8 @@
      driver-c10 count <pinned|fixed> <max foreground ops incl. close> <alphabet e.g. udfr>
          enumerate the schedule tree with the model's own enabledness; print the number of
          complete schedules and of crash points (cross-check of the harness's exploration)
+     driver-c10 search <pinned|fixed> <max ops> <alphabet>
+         counter-example finder on the model: WITNESS <oracle> <schedule> lines, or NONE
      driver-c10 run <pinned|fixed> <tokens>                                                  *)
 open Conv
 open Durability
@@ -113,9 +115,45 @@ let count v max_ops alphabet =
   go { st = init d0; n_u = 0 } 0 0 false;
   Printf.printf "schedules %d crash_points %d nodes %d\n" !leaves !crash !nodes
 
+(* counter-example finder that accompanies the theorems: walk the same tree on the model and
+   report the first schedule on which the file does not load, or on which drop has returned and
+   the file differs from what the dictionary showed at close *)
+let search v max_ops alphabet =
+  let max_ops = int_of_string max_ops in
+  let alphabet = tokens_of alphabet in
+  let found = ref 0 in
+  let report kind path =
+    if !found < 3 then begin
+      incr found;
+      Printf.printf "WITNESS %s %s\n" kind (String.concat "" (Stdlib.List.rev_map (String.make 1) path))
+    end
+  in
+  let rec go (m : sim) path depth ops at_close =
+    if !found < 3 then begin
+      (match disk_table m.st nkeys with
+       | None -> report "not-loadable" path
+       | Some t -> (
+           match (m.st.st_pc, at_close) with
+           | Closed, Some c when c <> t -> report "lost-after-close" path
+           | _ -> ()));
+      let en =
+        (if parked m.st then [ 'W' ] else [])
+        @ (if closing m.st then [] else (if ops + 1 < max_ops then alphabet else []) @ [ 'x' ])
+      in
+      Stdlib.List.iter
+        (fun c ->
+          let at_close' = if c = 'x' && at_close = None then Some (mem_table m.st nkeys) else at_close in
+          go (apply v m depth c) (c :: path) (depth + 1) (if c = 'W' then ops else ops + 1) at_close')
+        en
+    end
+  in
+  go { st = init d0; n_u = 0 } [] 0 0 None;
+  if !found = 0 then print_endline "NONE"
+
 let main args =
   match args with
   | [ "views"; v; inp; out ] -> views (variant_of v) inp out; 0
   | [ "count"; v; max_ops; alphabet ] -> count (variant_of v) max_ops alphabet; 0
+  | [ "search"; v; max_ops; alphabet ] -> search (variant_of v) max_ops alphabet; 0
   | "run" :: v :: rest -> print_endline (trace (variant_of v) (tokens_of (String.concat "" rest))); 0
   | _ -> prerr_endline "usage: driver-c10 views <pinned|fixed> <in> <out> | count <variant> <max_ops> <alphabet> | run <variant> <tokens>"; 2
